@@ -58,6 +58,9 @@ LEVEL = {
  "C16": ("model_checking", "explicit-state breadth-first search over event histories of the real vector cache (states deduplicated by a canonical key read through verif hooks, successors by replay), plus stateless model checking of concurrent searchers under a controlled scheduler and a free-running race-detector pass",
          "every history of open/search/filtered-search/close-handle/expiry-tick/segment-close events up to the depth bound is executed on the real cache; in every state each search must equal the reference for its own exclusion bitmap, every open handle's native index must be alive, and after segment close nothing may be alive; concurrent searchers with expiry ticks are explored preemption-bounded",
          "trusted base: fakefaiss stand-in (DESIGN 3.4); expiry pass driven through the verif hook instead of the 1 s timer", "4 C16"),
+ "C09": ("exploration", "bounded-exhaustive enumeration of written files decoded by an independent reader (translation-validation style), plus a frozen corpus written by the pinned commit re-read on every run",
+         "every file of a curated enumeration (all batch families, merges up to depth 2, synonym merges, vector framing) is decoded by a reader written only from the documented v16 layout and compared with the reference of what went in; 33 files written by the pinned commit are opened by the current code and must answer exactly as frozen",
+         "the independent decoder (harness/dec16) and the frozen corpus (/verif/corpus) are the trusted base; vector index bytes are the stand-in's", "4 C09"),
  "C01": ("exploration", "bounded-exhaustive input enumeration on the implementation vs. reference model",
          "every batch of a stated finite alphabet (cell menu per document x field, N<=3; column and chunk-boundary families) x chunk modes x both build tags is built by the real code and its complete term/postings content compared with an independent reference model; exhaustive within the bounds, no sampling",
          "reference model in harness/ref; inputs only inside the alphabet; Go map order not enumerable (semantic oracle)", "4 C01"),
